@@ -42,21 +42,64 @@ def refinement_on_model(ctx, rows):
 
 
 def strip_names(rows):
-    """the same sheet inside the fragment of the refinement theorem: no category names, no node ids / node names"""
+    """the same sheet inside the fragment of the refinement theorem: no node ids / node names"""
     import copy
     rows = copy.deepcopy(rows)
     for r in rows:
-        for e in r["edges"]:
-            e["name"] = ""
         r.pop("node_uuid", None)
         r.pop("node_name", None)
     return rows
 
 
+def name_clashes(rows):
+    """explicit category names of the sheet that are also a name the compiler invents for a condition of the sheet
+    (generate_category_name: the arguments title-cased and joined by "_", "_alt" appended while taken), "Other" (the
+    default category) or "No Response" - Comp/Refine.v: gnameb"""
+    invented = {"Other", "No Response"}
+    for r in rows:
+        for e in r["edges"]:
+            invented.add(e["value"].title())
+            invented.add("None_" + e["value"].title())
+    out = set()
+    for r in rows:
+        for e in r["edges"]:
+            nm = e["name"]
+            while nm:
+                if nm in invented:
+                    out.add(e["name"])
+                if not nm.endswith("_alt"):
+                    break
+                nm = nm[:-4]
+    return out
+
+
+def has_group_from_noop(rows):
+    """does an edge with a has_group test (and a value) leave a no_op row?"""
+    noops = {r["row_id"] for r in rows if r["type"] == "no_op" and r.get("row_id")}
+    prev_noop = False
+    for r in rows:
+        for i, e in enumerate(r["edges"]):
+            if e["ctype"] == "has_group" and e["value"] and (e["from"] in noops or (e["from"] == "" and i == 0 and prev_noop)):
+                return True
+        if r["type"] in sheetgen.NODE_TYPES or r["type"] == "no_op":
+            prev_noop = r["type"] == "no_op"
+    return False
+
+
 def judge(ctx, rows, layout_rng, nontrivial, samples, wf=True):
     v, m = ctx.v, ctx.model
-    refinement_on_model(ctx, rows)
     headers, cells = sheetgen.render_sheet(rows, layout_rng)
+    # the rows as the rendered sheet holds them: with the edges.N.* headers every row has as many edge entries as the
+    # widest row, the missing ones blank.  The reference does not read a blank entry as an edge, in any kind of row.
+    abstract, rows = rows, sheetgen.written_rows(rows, headers)
+    if any(len(a["edges"]) != len(b["edges"]) for a, b in zip(abstract, rows)):
+        ctx.count("sheets with blank padding entries in the edge columns")
+        for a, b in zip(abstract, rows):
+            if len(a["edges"]) != len(b["edges"]):
+                ctx.count("padded rows: " + a["type"])
+    if any(e["ctype"] == "has_group" for r in rows for e in r["edges"]):
+        ctx.count("sheets with a has_group test on an edge")
+    refinement_on_model(ctx, rows)
     r = flowutil.compile_workbook(flowutil.single_flow_workbook("f1", headers, cells))
     v.coverage["evaluations"] += 1
     rs = rowref.rows_sexp(rows)
@@ -65,7 +108,18 @@ def judge(ctx, rows, layout_rng, nontrivial, samples, wf=True):
         if m and wf:
             ref = m.ask("(7 1 %s)" % rs)
             if ref != "()":
-                ctx.disagree("reference accepts a sheet the implementation rejects", dict(rows=rows, error=r[1:]), "Some", "Err")
+                if r[1] == "critical" and name_clashes(rows) & {"Other", "No Response"}:
+                    # a tree that refuses a category named like the default / No Response category (one way of repairing
+                    # the finding category-name-clash) complies: there is no compiled flow to judge
+                    ctx.count("rejected: explicit category name of a reserved category")
+                elif r[1] == "IndexError" and any(e["ctype"] == "has_group" and e["value"] for x in rows for e in x["edges"]):
+                    # the only IndexError a has_group test can cause: SwitchRouter.record_global_uuids reads arguments[1]
+                    frm = "leaving a no_op decision" if has_group_from_noop(rows) else "of a row that is not a group split"
+                    v.failing_input("has_group-condition-from-no_op" if has_group_from_noop(rows) else "has_group-condition-outside-group-split",
+                                    f"a has_group test on an edge {frm}: the sheet has a meaning but does not compile (IndexError when the container is validated)",
+                                    dict(headers=headers, cells=[[c.get(h, "") for h in headers] for c in cells], rows=rows, trace=None))
+                else:
+                    ctx.disagree("reference accepts a sheet the implementation rejects", dict(rows=rows, error=r[1:]), "Some", "Err")
         return
     flow = r[1]["flows"][0]
     if not m:
@@ -91,7 +145,10 @@ def judge(ctx, rows, layout_rng, nontrivial, samples, wf=True):
         if tr is None:
             ctx.disagree("checker rejects but no distinguishing sequence found", dict(rows=rows), "2", "")
         else:
-            v.failing_input("control-flow-differs", f"input/outcome sequence {tr!r} separates the rows' meaning from the compiled flow",
+            clash = name_clashes(rows)
+            v.failing_input("category-name-clash" if clash else "control-flow-differs",
+                            (f"explicit category name(s) {sorted(clash)!r} are also the name of another category of the router; " if clash else "")
+                            + f"input/outcome sequence {tr!r} separates the rows' meaning from the compiled flow",
                             dict(headers=headers, cells=[[c.get(h, "") for h in headers] for c in cells], rows=rows, trace=tr))
     else:
         ctx.disagree("model could not read the case", dict(rows=rows), res, "")
@@ -104,11 +161,12 @@ def run(ctx):
     for i in range(n):
         rng = ctx.rng
         wf = rng.random() > 0.12
-        rows, g = sheetgen.gen_core_sheet(rng, rng.choice([2, 3, 4, 6, 10, 15]), wf=wf, special_text=rng.random() < 0.6)
+        rows, g = sheetgen.gen_core_sheet(rng, rng.choice([2, 3, 4, 6, 10, 15]), wf=wf, special_text=rng.random() < 0.6,
+                                          has_group=rng.random() < 0.4, clash_names=rng.random() < 0.3)
         if not rows:
             continue
         judge(ctx, rows, rng, nontrivial, samples, wf=wf)
-    # the same kind of sheets inside the fragment of the refinement theorem (unnamed categories, no node ids)
+    # the same kind of sheets inside the fragment of the refinement theorem (no node ids)
     for i in range(n // 4):
         rng = ctx.rng
         rows, g = sheetgen.gen_core_sheet(rng, rng.choice([2, 4, 6, 10, 15]), wf=True, special_text=rng.random() < 0.5)
@@ -147,7 +205,7 @@ def replay(rep):
     m = common.Model()
     out = flowutil.compile_workbook(flowutil.single_flow_workbook("f1", r["headers"], [dict(zip(r["headers"], c)) for c in r["cells"]]))
     if out[0] != "ok":
-        return False
+        return False      # the reference gives the sheet a meaning (that is why it was reported): it must compile
     res = m.ask("(7 2 %s %s)" % (rowref.rows_sexp(r["rows"]), flowutil.flow_sexp(out[1]["flows"][0])))
     m.close()
     return res == "1"
